@@ -40,25 +40,28 @@ Section Main.
 
   (* triangulate: write trace + formula (landmark rows copied BEFORE the in-place division,
      the others = -1/2 pinv(Y_L) (delta - mu)) *)
-  Theorem triangulate_formula_lemma N d lm dist mu_size mu (E : @eig_result F) ws :
+  Theorem triangulate_formula_lemma N d keep lm dist mu_size mu (E : @eig_result F) ws :
     NoDup lm ->
-    triangulate N d lm dist mu_size mu E = LOk ws ->
+    triangulate N d keep lm dist mu_size mu E = LOk ws ->
     (forall x, x < N -> count_occ Nat.eq_dec (map fst ws) x = 1) /\
     (forall x, In x (map fst ws) -> x < N) /\
     (forall i, i < length lm -> last_write ws (lmk lm i) = Some (mrow (er_first E) i)) /\
     (forall x, x < N -> ~ In x lm ->
        exists v, last_write ws x = Some v /\
-         veq d v (tri_spec_row (length lm) lm dist mu (er_first E) (er_second E) x)).
+         forall c, c < d ->
+           v c = if keep c then tri_spec_row (length lm) lm dist mu (er_first E) (er_second E) x c
+                 else 0%F).
   Proof.
-    intros Hnd H. destruct (triangulate_trace _ _ _ _ _ _ _ _ Hnd H) as [H1 [H2 [H3 H4]]].
+    intros Hnd H. destruct (triangulate_trace _ _ _ _ _ _ _ _ _ Hnd H) as [H1 [H2 [H3 H4]]].
     split; [exact H1|]. split; [exact H2|]. split; [exact H3|].
-    intros x Hx Hnin. eexists. split; [apply H4; assumption|]. apply tri_math_row_spec.
+    intros x Hx Hnin. eexists. split; [apply H4; assumption|].
+    intros c Hc. apply tri_math_row_spec. assumption.
   Qed.
 
-  Lemma lmds_embed_inv N d lm dist W w s ws :
-    lmds_embed N d lm dist W w s = LOk ws ->
+  Lemma lmds_embed_inv N d keep lm dist W w s ws :
+    lmds_embed N d keep lm dist W w s = LOk ws ->
     Forall (fun l => l < N) lm /\ d <= length lm /\
-    triangulate N d lm dist (length lm)
+    triangulate N d keep lm dist (length lm)
                 (landmark_mu (length lm) (landmark_dist_sq lm dist))
                 (lmds_E (length lm) d W w s) = LOk ws.
   Proof.
@@ -71,9 +74,9 @@ Section Main.
   Qed.
 
   (* target_dimension <= #landmarks: no out-of-range access, an embedding is produced *)
-  Theorem lmds_embed_total N d lm dist W w s :
+  Theorem lmds_embed_total N d keep lm dist W w s :
     Forall (fun l => l < N) lm -> d <= length lm ->
-    exists ws, lmds_embed N d lm dist W w s = LOk ws.
+    exists ws, lmds_embed N d keep lm dist W w s = LOk ws.
   Proof.
     intros Hf Hd. unfold lmds_embed.
     pose proof (proj1 (find_oob_none N lm) Hf) as Ef. rewrite Ef.
@@ -83,9 +86,9 @@ Section Main.
 
   (* target_dimension > #landmarks (accepted by validation, F21): rightCols(d) leaves the
      L-column eigenvector matrix, whatever the solver answered *)
-  Theorem lmds_embed_bounds N d lm dist W w s :
+  Theorem lmds_embed_bounds N d keep lm dist W w s :
     Forall (fun l => l < N) lm -> length lm < d ->
-    lmds_embed N d lm dist W w s =
+    lmds_embed N d keep lm dist W w s =
       LOOB "solver.eigenvectors().rightCols(target_dimension)" d (length lm).
   Proof.
     intros Hf Hd. unfold lmds_embed.
@@ -97,9 +100,9 @@ Section Main.
      (1) the matrix handed to the solver is MDS's matrix for the sub-configuration,
      (2) given the same solver/sqrt answers, row landmarks[i] of the output is row i of MDS's
          output on the subset. *)
-  Theorem lmds_landmarks_are_mds_lemma N d lm dist W w s ws :
+  Theorem lmds_landmarks_are_mds_lemma N d keep lm dist W w s ws :
     NoDup lm ->
-    lmds_embed N d lm dist W w s = LOk ws ->
+    lmds_embed N d keep lm dist W w s = LOk ws ->
     let L := length lm in
     let sub : mat F := fun i j => dist (lmk lm i) (lmk lm j) in
     (forall i j, lmds_matrix lm dist i j = mds_matrix_full L sub i j) /\
@@ -107,53 +110,57 @@ Section Main.
               forall i, i < L -> last_write ws (lmk lm i) = Some (mrow Y i).
   Proof.
     intros Hnd H L sub. split; [intros; reflexivity|].
-    destruct (lmds_embed_inv _ _ _ _ _ _ _ _ H) as [Hf [Hd Ht]].
+    destruct (lmds_embed_inv _ _ _ _ _ _ _ _ _ H) as [Hf [Hd Ht]].
     exists (scale_by (sel_vecs L d W) s). split.
     - unfold mds_embed, select_largest. fold L in Hd. apply Nat.leb_le in Hd. rewrite Hd. reflexivity.
     - intros i Hi.
-      destruct (triangulate_trace _ _ _ _ _ _ _ _ Hnd Ht) as [_ [_ [Hl _]]].
+      destruct (triangulate_trace _ _ _ _ _ _ _ _ _ Hnd Ht) as [_ [_ [Hl _]]].
       exact (Hl i Hi).
   Qed.
 
   (* every other row is the distance-based triangulation against the landmark embedding *)
-  Theorem lmds_triangulates_lemma N d lm dist W w s ws :
+  Theorem lmds_triangulates_lemma N d keep lm dist W w s ws :
     NoDup lm ->
-    lmds_embed N d lm dist W w s = LOk ws ->
+    lmds_embed N d keep lm dist W w s = LOk ws ->
     let L := length lm in
     (forall x, x < N -> count_occ Nat.eq_dec (map fst ws) x = 1) /\
     (forall x, In x (map fst ws) -> x < N) /\
     (forall x, x < N -> ~ In x lm ->
        exists v, last_write ws x = Some v /\
-         veq d v (tri_spec_row L lm dist (landmark_mu L (landmark_dist_sq lm dist))
-                               (scale_by (sel_vecs L d W) s) (sel_vals L d w) x)).
+         forall c, c < d ->
+           v c = if keep c
+                 then tri_spec_row L lm dist (landmark_mu L (landmark_dist_sq lm dist))
+                                   (scale_by (sel_vecs L d W) s) (sel_vals L d w) x c
+                 else 0%F).
   Proof.
     intros Hnd H L.
-    destruct (lmds_embed_inv _ _ _ _ _ _ _ _ H) as [Hf [Hd Ht]].
-    destruct (triangulate_trace _ _ _ _ _ _ _ _ Hnd Ht) as [H1 [H2 [_ H4]]].
+    destruct (lmds_embed_inv _ _ _ _ _ _ _ _ _ H) as [Hf [Hd Ht]].
+    destruct (triangulate_trace _ _ _ _ _ _ _ _ _ Hnd Ht) as [H1 [H2 [_ H4]]].
     split; [exact H1|]. split; [exact H2|].
     intros x Hx Hnin. eexists. split; [apply H4; assumption|].
-    apply (tri_math_row_spec lm dist _ (lmds_E (length lm) d W w s) d x).
+    intros c Hc. apply (tri_math_row_spec keep lm dist _ (lmds_E (length lm) d W w s) d x c Hc).
   Qed.
 
   (* the "Hence" clause: Euclidean data, landmark Gram carried by the d selected eigenpairs,
      landmarks spanning the data  ==>  every pairwise distance is reproduced *)
-  Theorem lmds_reproduces_euclidean_lemma N D d lm (X dist W : mat F) (w s : vec F) ws :
+  Theorem lmds_reproduces_euclidean_lemma N D d keep lm (X dist W : mat F) (w s : vec F) ws :
     NoDup lm ->
     let L := length lm in
     let V := sel_vecs L d W in let lam := sel_vals L d w in
     of_nat L <> 0%F -> @two F Fo <> 0%F ->
     (forall a b, a < N -> b < N -> (dist a b * dist a b)%F = lm_sqdist D X a b) ->
-    lmds_embed N d lm dist W w s = LOk ws ->
+    lmds_embed N d keep lm dist W w s = LOk ws ->
     meq L d (mmul L (lmds_matrix lm dist) V) (mmul d V (mdiag lam)) ->
     lm_rank_d L d (lmds_matrix lm dist) V lam ->
-    (forall c, c < d -> lam c <> 0%F) ->
     (forall c, c < d -> (s c * s c)%F = lam c) ->
+    (forall c, c < d -> keep c = true -> lam c <> 0%F) ->
+    (forall c, c < d -> keep c = false -> s c = 0%F) ->
     landmarks_span N D lm X ->
     lm_dist_reproduced N d (last_write ws) dist.
   Proof.
-    intros Hnd L V lam HL H2 Hdist H HBV Hrank Hlam Hs Hspan.
-    destruct (lmds_embed_inv _ _ _ _ _ _ _ _ H) as [Hf [Hd Ht]].
-    destruct (triangulate_trace _ _ _ _ _ _ _ _ Hnd Ht) as [_ [_ [H3 H4]]].
+    intros Hnd L V lam HL H2 Hdist H HBV Hrank Hs Hkeep Hdrop Hspan.
+    destruct (lmds_embed_inv _ _ _ _ _ _ _ _ _ H) as [Hf [Hd Ht]].
+    destruct (triangulate_trace _ _ _ _ _ _ _ _ _ Hnd Ht) as [_ [_ [H3 H4]]].
     set (y := fun a : nat => match last_write ws a with Some v => v | None => fun _ => 0%F end).
     assert (Hy : forall a, a < N -> last_write ws a = Some (y a)).
     { intros a Ha. unfold y. destruct (in_dec Nat.eq_dec a lm) as [Hin|Hnin].
@@ -162,38 +169,38 @@ Section Main.
       - rewrite (H4 a Ha Hnin). reflexivity. }
     assert (Hrep : forall a b, a < N -> b < N ->
                sumn d (fun c => ((y a c - y b c) * (y a c - y b c))%F) = (dist a b * dist a b)%F).
-    { apply (rows_reproduce N D d lm X dist V lam s HL H2 Hf Hdist HBV Hrank Hlam Hs y Hspan).
+    { apply (rows_reproduce N D d lm X dist V lam s keep HL H2 Hf Hdist HBV Hrank Hs Hkeep Hdrop y Hspan).
       - intros i c Hi Hc. unfold y. rewrite (H3 i Hi). reflexivity.
       - intros a c Ha Hnin Hc. unfold y. rewrite (H4 a Ha Hnin).
-        apply (tri_math_row_spec lm dist _ (lmds_E (length lm) d W w s) d a c Hc). }
+        apply (tri_math_row_spec keep lm dist _ (lmds_E (length lm) d W w s) d a c Hc). }
     intros a b Ha Hb. exists (y a), (y b). split; [apply Hy; assumption|].
     split; [apply Hy; assumption|]. apply Hrep; assumption.
   Qed.
 
   (* whole method, selection included: any permutation and any count <= N that leaves at least
      d landmarks gives an embedding in which every row is written exactly once *)
-  Theorem lmds_total_lemma N d shuffled count dist W w s :
+  Theorem lmds_total_lemma N d keep shuffled count dist W w s :
     Permutation shuffled (seq 0 N) -> d <= count -> count <= N ->
-    exists ws, lmds N d shuffled count dist W w s = LOk ws /\
+    exists ws, lmds N d keep shuffled count dist W w s = LOk ws /\
       (forall x, x < N -> count_occ Nat.eq_dec (map fst ws) x = 1) /\
       (forall x, In x (map fst ws) -> x < N).
   Proof.
     intros HP Hd Hc. unfold lmds.
     destruct (landmarks_prefix_of_perm_lemma shuffled N count HP) as [Hok _].
     destruct (Hok Hc) as [Hsel [Hnd [Hf Hlen]]]. rewrite Hsel.
-    destruct (lmds_embed_total N d (firstn count shuffled) dist W w s Hf) as [ws Hws]; [lia|].
+    destruct (lmds_embed_total N d keep (firstn count shuffled) dist W w s Hf) as [ws Hws]; [lia|].
     exists ws. split; [exact Hws|].
-    destruct (lmds_triangulates_lemma _ _ _ _ _ _ _ _ Hnd Hws) as [H1 [H2 _]].
+    destruct (lmds_triangulates_lemma _ _ _ _ _ _ _ _ _ Hnd Hws) as [H1 [H2 _]].
     split; assumption.
   Qed.
   (* the CURRENT validate() (fix F21): an accepted request never leaves the eigenvector matrix:
      with the landmark count the code computes, target_dimension <= count <= N *)
-  Theorem lmds_validated_no_oob_lemma N d ratio count shuffled dist W w s :
+  Theorem lmds_validated_no_oob_lemma N d keep ratio count shuffled dist W w s :
     Permutation shuffled (seq 0 N) ->
     lmds_validate N d ratio = true ->
     n_landmarks_nat N ratio = Some count ->
     d <= count /\ count <= N /\
-    exists ws, lmds N d shuffled count dist W w s = LOk ws /\
+    exists ws, lmds N d keep shuffled count dist W w s = LOk ws /\
       (forall x, x < N -> count_occ Nat.eq_dec (map fst ws) x = 1) /\
       (forall x, In x (map fst ws) -> x < N).
   Proof.
